@@ -1504,7 +1504,9 @@ class Logged(EnvironmentFilter):
             Adds 'action', 'reward', and 'probability' to interactions with 'context',
             'actions', and 'rewards'.
         """
-        self._learner = learner
+        #the logging policy is the learner as it is now. A learner object that is also evaluated in
+        #the experiment is trained in place so we keep our own copy of it rather than a reference.
+        self._learner = copy.deepcopy(learner)
         self._seed    = seed
 
     @property
